@@ -274,8 +274,8 @@ def finish(pc, props_mod):
     agg = pc.clauses()
     exit_code = 0
     lines = []
-    n_clauses = len(agg)
-    n_discharged = sum(1 for a in agg.values() if a['discharged'] == a['n'])
+    n_clauses = len([c for c in agg if c not in known_clauses])
+    n_discharged = sum(1 for c, a in agg.items() if a['discharged'] == a['n'] and c not in known_clauses)
     by_backend = {}
     for it in pc.items:
         if it.result == 'discharged':
@@ -386,6 +386,7 @@ def finish(pc, props_mod):
             'solver_s': round(sum(it.seconds for it in pc.items), 3),
             'samples': samples,
             'bounded_standins': pc.bounded,
+            'known_finding_clauses_not_counted': sorted(c for c in agg if c in known_clauses),
             'known_findings': [dict((kk, vv) for kk, vv in k.items() if not kk.startswith('_')) for k in known],
             'canaries': pc.canaries,
             'undecided': [{'why': w, 'line': l, 'function': f} for (w, l, f) in undecided],
